@@ -13,7 +13,8 @@
     rounding); outside the window [0, chain_time] the handler refuses. *)
 From Coq Require Import ZArith QArith List Bool Arith Reals.
 From Flocq Require Import Core.Core IEEE754.BinarySingleNaN.
-Require Import JF.Base.F64 JF.Model.Time JF.Model.SliceCases JF.Model.EndOfChain JF.Model.EndOfChainCases JF.Proofs.F64Facts
+Require Import JF.Base.F64 JF.Model.Time JF.Model.Periodic JF.Model.TimeSlice JF.Model.Lifting JF.Model.Handlers
+               JF.Model.SliceCases JF.Model.EndOfChain JF.Model.EndOfChainCases JF.Proofs.F64Facts
                JF.Proofs.EndOfChainProofs.
 Import ListNotations.
 
@@ -74,6 +75,22 @@ Theorem end_of_chain_time_window : forall last cur chain x,
 Proof. exact chain_time_window. Qed.
 Print Assumptions end_of_chain_time_window.
 
+(** the end of a chain ONLY hands the velocity over (single point masses): the old active unit is at its time-sliced
+    position, at rest and without time stamp; the new active unit has not moved, carries the new velocity and the event
+    time; nothing else is in the out-state; the stored last committed event time is the event time *)
+Theorem end_of_chain_hands_velocity_over : forall env k T u w v ts p nv,
+  hu_parent u = None -> hu_parent w = None ->
+  hu_vel u = Some v -> hu_ts u = Some ts -> hu_vel w = None -> hu_ts w = None ->
+  zl_eqb (hu_id w) (hu_id u) = false ->
+  time_slice_position (hu_pos u) v T ts (repeat (e_L env) (e_dim env)) = Some p ->
+  vec_eqb v v = true ->
+  new_velocity k (e_dim env) v = Some nv -> small nv = false -> small (repeat fzero (e_dim env)) = true ->
+  eoc_out_state env k T [u] [w] =
+  Some (mkEO [mkHU (hu_id u) p None None (hu_charge u) None (hu_weight u);
+              mkHU (hu_id w) (hu_pos w) (Some nv) (Some T) (hu_charge w) None (hu_weight w)] T).
+Proof. exact single_point_mass_handover. Qed.
+Print Assumptions end_of_chain_hands_velocity_over.
+
 (** non-vacuity, and the model evaluated on concrete inputs *)
 Definition ex_v : list f64 := [fzero; of_bits 4607182418800017408; fzero].      (* (0, 1.0, 0) *)
 Example periodic_direction_nonvacuous :
@@ -91,3 +108,19 @@ Example regular_end_of_chain_time_nonvacuous :
   | Some T => feqb_bits (tq T) (of_bits 4638426141214900224) && feqb_bits (tr T) (of_bits 4598889490446177376)
   | None => false end = true.
 Proof. cbv zeta. repeat split; vm_compute; reflexivity. Qed.
+
+Example end_of_chain_hands_velocity_over_nonvacuous :
+  let env := mkEnv fone 3 fone false 0 false fzero fzero [] Ratio in
+  let t0 := mkTime (of_bits 4638355772470722560) (of_bits 4602678819172646912) in
+  let T := mkTime (of_bits 4638426141214900224) (of_bits 4598889490446177376) in
+  let u := mkHU [1%Z] [of_bits 4599075939470750515; fzero; fzero] (Some ex_v) (Some t0) fnan None fone in
+  let w := mkHU [4%Z] [fzero; fzero; of_bits 4602678819172646912] None None fnan None fone in
+  match eoc_out_state env EPeriodic T [u] [w] with
+  | Some o => match eo_units o with
+              | [a; b] => match hu_vel a, hu_vel b with
+                          | None, Some nv => fl_eqb nv [fzero; fzero; of_bits 4607182418800017408]
+                          | _, _ => false end
+              | _ => false end
+  | None => false
+  end = true.
+Proof. vm_compute. reflexivity. Qed.
